@@ -137,6 +137,58 @@ theorem bz_stream_crc_ignored (hd : Gen.bzStreamCrcDead = true) (total : BitVec 
     · rfl
     · exact ih _ _
 
+/-! ### bzip2: the combination rule `total' = rotl(total, 1) ^ block` -/
+theorem xor_cancel_left {w} (a d d' : BitVec w) (h : a ^^^ d = a ^^^ d') : d = d' := by
+  have := congrArg (a ^^^ ·) h
+  simpa [← BitVec.xor_assoc] using this
+
+theorem xor_cancel_right {w} (a a' d : BitVec w) (h : a ^^^ d = a' ^^^ d) : a = a' := by
+  have := congrArg (· ^^^ d) h
+  simpa [BitVec.xor_assoc] using this
+
+theorem rotl1_inj (t t' : BitVec 32) (h : (t <<< 1 ||| t >>> 31) = (t' <<< 1 ||| t' >>> 31)) : t = t' := by
+  apply BitVec.eq_of_getLsbD_eq
+  intro j hj
+  by_cases h31 : j = 31
+  · subst h31
+    have := congrArg (fun x => x.getLsbD 0) h
+    simpa using this
+  · have := congrArg (fun x => x.getLsbD (j + 1)) h
+    have hj1 : j + 1 < 32 := by omega
+    have e1 : t.getLsbD (31 + (j + 1)) = false := BitVec.getLsbD_of_ge _ _ (by omega)
+    have e2 : t'.getLsbD (31 + (j + 1)) = false := BitVec.getLsbD_of_ge _ _ (by omega)
+    simp [hj1, e1, e2] at this
+    simpa [BitVec.getLsbD_eq_getElem hj] using this
+
+/-- the combination rule is injective in the block CRC … -/
+theorem bzCombine_inj_data (t d d' : BitVec 32) (h : bzCombine t d = bzCombine t d') : d = d' :=
+  xor_cancel_left _ d d' h
+
+/-- … and in the running total (a rotation is a bijection) -/
+theorem bzCombine_inj_total (t t' d : BitVec 32) (h : bzCombine t d = bzCombine t' d) : t = t' :=
+  rotl1_inj t t' (xor_cancel_right _ _ d h)
+
+theorem bzStreamCrc_inj_total (ds : List Bytes) (t t' : BitVec 32) (h : bzStreamCrc t ds = bzStreamCrc t' ds) : t = t' := by
+  induction ds generalizing t t' with
+  | nil => simpa [bzStreamCrc] using h
+  | cons d rest ih =>
+    simp only [bzStreamCrc] at h
+    exact bzCombine_inj_total _ _ _ (ih _ _ h)
+
+theorem bzStreamCrc_append (A B : List Bytes) (t : BitVec 32) :
+    bzStreamCrc t (A ++ B) = bzStreamCrc (bzStreamCrc t A) B := by
+  induction A generalizing t with
+  | nil => simp [bzStreamCrc]
+  | cons a rest ih => simp only [List.cons_append, bzStreamCrc]; exact ih _
+
+/-- **one changed block changes the stream CRC**: whatever precedes and follows -/
+theorem bzStreamCrc_single (t : BitVec 32) (A C : List Bytes) (d d' : Bytes) (h : bzBlockCrc d ≠ bzBlockCrc d') :
+    bzStreamCrc t (A ++ d :: C) ≠ bzStreamCrc t (A ++ d' :: C) := by
+  intro e
+  rw [bzStreamCrc_append, bzStreamCrc_append] at e
+  simp only [bzStreamCrc] at e
+  exact h (bzCombine_inj_data _ _ _ (bzStreamCrc_inj_total C _ _ e))
+
 theorem xz_chunks (chunks : List Bytes) (c : BitVec 32) :
     chunks.foldl (fun c d => crc32A d c) c = crc32A chunks.flatten c := by
   induction chunks generalizing c with
@@ -298,5 +350,525 @@ theorem gate_lzx (env : LzxEnv) (f out : Bytes) (h : lzxDepack env f = some out)
   · simp at h
   exact gate_lzxLoop env f out _ _ _ (selOk_empty f) h
 
+
+/-! ### xz container, byte level -/
+theorem gate_xzStreamHeader (h : Bytes) (ct : Nat) (hh : xzStreamHeader h = some ct) :
+    slice h 0 6 = [0xfd, 0x37, 0x7a, 0x58, 0x5a, 0x00] ∧ (crc32A (slice h 6 2) 0).toNat = le32 h 8 ∧
+      u8 h 6 = 0 ∧ ct = u8 h 7 ∧ ct ≤ 15 := by
+  unfold xzStreamHeader at hh
+  repeat' (split at hh)
+  all_goals (first
+    | (simp at hh; done)
+    | (simp only [Option.some.injEq] at hh; subst hh
+       simp only [ne_eq, Decidable.not_not] at *
+       refine ⟨by assumption, by assumption, by assumption, by trivial, by omega⟩))
+
+theorem gate_xzBlockHeaderAt (f : Bytes) (p : Nat) (h : XzBlockHdr) (hh : xzBlockHeaderAt f p = some h) :
+    h.size = (u8 f p + 1) * 4 ∧ p + h.size ≤ f.length ∧
+      (crc32A (slice f p (h.size - 4)) 0).toNat = le32 f (p + (h.size - 4)) := by
+  unfold xzBlockHeaderAt at hh
+  simp only [] at hh
+  repeat' (split at hh)
+  all_goals (first
+    | (simp at hh; done)
+    | (simp only [Option.some.injEq] at hh; subst hh
+       simp only [ne_eq, Decidable.not_not] at *
+       refine ⟨by trivial, by omega, by assumption⟩))
+
+/-- what an accepted Block satisfies -/
+structure XzBlkOk (lz : Nat → Bytes → Option (Nat × List Bytes)) (ct : Nat) (f : Bytes) (b : XzBlk) : Prop where
+  hdr : xzBlockHeaderAt f b.pos = some b.hdr
+  dec : lz b.hdr.props (f.drop (b.pos + b.hdr.size)) = some (b.consumed, b.chunks)
+  comp : xzSizeOk b.hdr.comp b.consumed = true
+  uncomp : xzSizeOk b.hdr.uncomp b.chunks.flatten.length = true
+  pad : (slice f (b.pos + b.hdr.size + b.consumed) ((4 - b.consumed % 4) % 4)).any (· != 0) = false
+  cpos : b.checkPos = b.pos + b.hdr.size + b.consumed + (4 - b.consumed % 4) % 4
+  check : ct = 1 → le32 f b.checkPos = (crc32A b.chunks.flatten 0).toNat
+  next : b.next = b.checkPos + (if ct = 1 then 4 else xzCheckSize ct)
+  fits : b.next ≤ f.length
+
+theorem sum_length_eq_flatten (cs : List Bytes) : (cs.map List.length).sum = cs.flatten.length := by
+  simp [List.length_flatten]
+
+theorem gate_xzBlockAt (lz : Nat → Bytes → Option (Nat × List Bytes)) (ct : Nat) (f : Bytes) (p : Nat) (b : XzBlk)
+    (h : xzBlockAt lz ct f p = some b) : b.pos = p ∧ XzBlkOk lz ct f b := by
+  unfold xzBlockAt at h
+  split at h
+  · simp at h
+  rename_i hd hhd
+  simp only [] at h
+  split at h
+  · simp at h
+  rename_i c chunks hlz
+  repeat' (split at h)
+  all_goals (first
+    | (simp at h; done)
+    | (simp only [Option.some.injEq] at h; subst h
+       simp only [ne_eq, Decidable.not_not, Bool.not_eq_true, Bool.not_eq_eq_eq_not, Bool.not_true,
+         beq_iff_eq, Nat.not_lt, sum_length_eq_flatten] at *
+       refine ⟨by trivial, ?_⟩
+       constructor <;> first
+         | assumption
+         | trivial
+         | (intro _; rw [← xz_chunks]; symm; assumption)
+         | (intro hct; omega)
+         | (simp_all; done)
+         | omega))
+
+theorem gate_xzBlocks (lz : Nat → Bytes → Option (Nat × List Bytes)) (ct : Nat) (f : Bytes) :
+    ∀ fuel p ip bs, xzBlocks lz ct f fuel p = some (ip, bs) →
+      ip < f.length ∧ u8 f ip = 0 ∧ (∀ b ∈ bs, XzBlkOk lz ct f b) := by
+  intro fuel
+  induction fuel with
+  | zero => intro p ip bs h; simp [xzBlocks] at h
+  | succ n ih =>
+    intro p ip bs h
+    unfold xzBlocks at h
+    split at h
+    · simp at h
+    rename_i hlen
+    split at h
+    · rename_i hz
+      simp only [Option.some.injEq, Prod.mk.injEq] at h
+      obtain ⟨h1, h2⟩ := h
+      subst h1; subst h2
+      exact ⟨by omega, by simpa using hz, by simp⟩
+    split at h
+    · simp at h
+    rename_i b hb
+    split at h
+    · simp at h
+    rename_i ip' bs' hrec
+    simp only [Option.some.injEq, Prod.mk.injEq] at h
+    obtain ⟨h1, h2⟩ := h
+    subst h1; subst h2
+    obtain ⟨r1, r2, r3⟩ := ih _ _ _ hrec
+    refine ⟨r1, r2, ?_⟩
+    intro x hx
+    rcases List.mem_cons.mp hx with hx | hx
+    · subst hx; exact (gate_xzBlockAt lz ct f p x hb).2
+    · exact r3 x hx
+
+/-- what an accepted Index satisfies (`fp` = offset of the Stream Footer) -/
+structure XzIndexOk (f : Bytes) (ip count : Nat) (bh : XzHash) (fp : Nat) : Prop where
+  count : ∃ q r, xzVli f (ip + 1) f.length = some (count, q) ∧ xzIndexRecords f count q {} = some (r, bh) ∧
+            r ≤ fp - 4 ∧ fp - 4 < r + 4 ∧ (slice f r (fp - 4 - r)).any (· != 0) = false
+  aligned : (fp - 4 - ip) % 4 = 0
+  lt : ip + 4 < fp
+  crc : (crc32A (slice f ip (fp - 4 - ip)) 0).toNat = le32 f (fp - 4)
+  fits : fp ≤ f.length
+
+theorem xzVliGo_pos (f : Bytes) (limit : Nat) : ∀ fuel p sh acc v q, xzVliGo f limit fuel p sh acc = some (v, q) → p < q := by
+  intro fuel
+  induction fuel with
+  | zero => intro p sh acc v q h; simp [xzVliGo] at h
+  | succ n ih =>
+    intro p sh acc v q h
+    unfold xzVliGo at h
+    simp only [] at h
+    repeat' (split at h)
+    all_goals (first
+      | (simp at h; done)
+      | (simp only [Option.some.injEq, Prod.mk.injEq] at h; omega)
+      | (have := ih _ _ _ _ _ h; omega))
+
+theorem xzVli_pos (f : Bytes) (p limit v q : Nat) (h : xzVli f p limit = some (v, q)) : p < q :=
+  xzVliGo_pos f limit 9 p 0 0 v q h
+
+theorem xzIndexRecords_pos (f : Bytes) : ∀ n p h r ih, xzIndexRecords f n p h = some (r, ih) → p ≤ r := by
+  intro n
+  induction n with
+  | zero => intro p h r ih hh; simp [xzIndexRecords] at hh; omega
+  | succ n ihn =>
+    intro p h r ih hh
+    unfold xzIndexRecords at hh
+    split at hh
+    · simp at hh
+    rename_i unp q h1
+    split at hh
+    · simp at hh
+    rename_i unc r' h2
+    have := ihn _ _ _ _ hh
+    have := xzVli_pos _ _ _ _ _ h1
+    have := xzVli_pos _ _ _ _ _ h2
+    omega
+
+theorem gate_xzIndexAt (f : Bytes) (ip count : Nat) (bh : XzHash) (fp : Nat)
+    (h : xzIndexAt f ip count bh = some fp) : XzIndexOk f ip count bh fp := by
+  unfold xzIndexAt at h
+  split at h
+  · simp at h
+  rename_i cnt q hq
+  split at h
+  · simp at h
+  rename_i hcnt
+  split at h
+  · simp at h
+  rename_i r ih hr
+  simp only [] at h
+  repeat' (split at h)
+  all_goals (first | (simp at h; done) | skip)
+  simp only [Option.some.injEq] at h
+  simp only [ne_eq, Decidable.not_not, Nat.not_lt, Bool.not_eq_true] at *
+  subst hcnt
+  rename_i hih _ hcrc
+  subst hih
+  have hq' := xzVli_pos _ _ _ _ _ hq
+  have hr' := xzIndexRecords_pos _ _ _ _ _ _ hr
+  have e : fp - 4 = r + (4 - (r - ip) % 4) % 4 := by omega
+  constructor
+  · refine ⟨q, r, hq, hr, by omega, by omega, ?_⟩
+    have e2 : fp - 4 - r = (4 - (r - ip) % 4) % 4 := by omega
+    rw [e2]; assumption
+  · omega
+  · omega
+  · rw [e]
+    exact hcrc
+  · omega
+
+/-- what an accepted xz file satisfies -/
+structure XzParseOk (lz : Nat → Bytes → Option (Nat × List Bytes)) (f : Bytes) (P : XzParse) : Prop where
+  len : 12 ≤ f.length
+  header : xzStreamHeader f = some P.ct
+  blocks : ∀ b ∈ P.blocks, XzBlkOk lz P.ct f b
+  indicator : u8 f P.indexPos = 0
+  index : XzIndexOk f P.indexPos P.blocks.length (xzBlocksHash P.ct P.blocks) P.footerPos
+  footer : xzFooterOk (slice f P.footerPos 12) (P.footerPos - 4 - P.indexPos) P.ct = true
+  fits : P.footerPos + 12 ≤ f.length
+
+theorem gate_xzParse (lz : Nat → Bytes → Option (Nat × List Bytes)) (f : Bytes) (P : XzParse)
+    (h : xzParse lz f = some P) : XzParseOk lz f P := by
+  unfold xzParse at h
+  split at h
+  · simp at h
+  rename_i hlen
+  split at h
+  · simp at h
+  rename_i ct hct
+  split at h
+  · simp at h
+  rename_i ip bs hbs
+  split at h
+  · simp at h
+  rename_i fp hfp
+  split at h
+  · simp at h
+  rename_i hfit
+  split at h
+  · rename_i hft
+    simp only [Option.some.injEq] at h
+    subst h
+    obtain ⟨_, b2, b3⟩ := gate_xzBlocks lz ct f _ _ _ _ hbs
+    exact ⟨by omega, hct, b3, b2, gate_xzIndexAt f ip bs.length _ fp hfp, hft, by show fp + 12 ≤ f.length; omega⟩
+  · simp at h
+
+theorem gate_xzDepack (lz : Nat → Bytes → Option (Nat × List Bytes)) (f out : Bytes)
+    (h : xzDepack lz f = some out) : ∃ P, xzParse lz f = some P ∧ out = P.output ∧ XzParseOk lz f P := by
+  unfold xzDepack at h
+  cases hp : xzParse lz f with
+  | none => simp [hp] at h
+  | some P =>
+    simp only [hp, Option.map_some, Option.some.injEq] at h
+    exact ⟨P, rfl, h.symm, gate_xzParse lz f P hp⟩
+
+/-- slices of a 12-byte slice -/
+theorem u8_slice (f : Bytes) (p n i : Nat) (h : i < n) : u8 (slice f p n) i = u8 f (p + i) := by
+  unfold u8 slice
+  simp [List.getD_eq_getElem?_getD, h, List.getElem?_drop]
+
+theorem le32_slice (f : Bytes) (p n i : Nat) (h : i + 3 < n) : le32 (slice f p n) i = le32 f (p + i) := by
+  unfold le32
+  rw [u8_slice _ _ _ _ (by omega), u8_slice _ _ _ _ (by omega), u8_slice _ _ _ _ (by omega), u8_slice _ _ _ _ (by omega)]
+  simp [Nat.add_assoc]
+
+theorem slice_slice (f : Bytes) (p n i m : Nat) (h : i + m ≤ n) : slice (slice f p n) i m = slice f (p + i) m := by
+  unfold slice
+  rw [List.drop_take, List.take_take, List.drop_drop]
+  congr 1
+  omega
+
+/-- the Stream Footer test in terms of the file -/
+theorem xzFooterOk_file (f : Bytes) (fp isz ct : Nat) (h : xzFooterOk (slice f fp 12) isz ct = true) :
+    slice f (fp + 10) 2 = [0x59, 0x5a] ∧ (crc32A (slice f (fp + 4) 6) 0).toNat = le32 f fp ∧
+      isz / 4 = le32 f (fp + 4) ∧ u8 f (fp + 8) = 0 ∧ u8 f (fp + 9) = ct := by
+  unfold xzFooterOk at h
+  simp only [Bool.and_eq_true, beq_iff_eq] at h
+  obtain ⟨⟨⟨⟨h1, h2⟩, h3⟩, h4⟩, h5⟩ := h
+  rw [slice_slice _ _ _ _ _ (by omega)] at h1 h2
+  rw [le32_slice _ _ _ _ (by omega)] at h2 h3
+  rw [u8_slice _ _ _ _ (by omega)] at h4 h5
+  exact ⟨h1, by simpa using h2, by simpa using h3, h4, h5⟩
+
+
+/-! ### zip, the whole reader -/
+/-- what `mz_zip_reader_read_central_dir` established for the record at `p` -/
+structure ZipRecSane (f : Bytes) (p : Nat) : Prop where
+  sig : le32 f p = 0x02014b50
+  sizes : le32 f (p + 20) ≠ 0xFFFFFFFF → le32 f (p + 24) ≠ 0xFFFFFFFF → le32 f (p + 24) ≠ 0 → le32 f (p + 20) ≠ 0
+
+theorem gate_zipCdirRecord (f : Bytes) (thisDisk p n : Nat) (hasExt : Bool) (r : Nat × Bool)
+    (h : zipCdirRecord f thisDisk p n hasExt = some r) : ZipRecSane f p := by
+  unfold zipCdirRecord at h
+  simp only [] at h
+  split at h
+  · simp at h
+  rename_i h0
+  split at h
+  · simp at h
+  split at h
+  · simp at h
+  rename_i hs
+  simp only [Bool.or_eq_true, bne_iff_ne, ne_eq, decide_eq_true_eq, not_or, Decidable.not_not, Nat.not_lt] at h0
+  refine ⟨h0.2, ?_⟩
+  intro a b c d
+  apply hs
+  simp [b, c, d]
+
+theorem gate_zipCdirLoop (f : Bytes) (thisDisk : Nat) : ∀ k p n hasExt l,
+    zipCdirLoop f thisDisk k p n hasExt = some l → ∀ q ∈ l, ZipRecSane f q := by
+  intro k
+  induction k with
+  | zero => intro p n he l h; simp [zipCdirLoop] at h; subst h; simp
+  | succ k ih =>
+    intro p n he l h
+    unfold zipCdirLoop at h
+    split at h
+    · simp at h
+    rename_i tot he' hr
+    split at h
+    · simp at h
+    rename_i l' hl
+    simp only [Option.some.injEq] at h
+    subst h
+    intro q hq
+    rcases List.mem_cons.mp hq with hq | hq
+    · subst hq; exact gate_zipCdirRecord _ _ _ _ _ _ hr
+    · exact ih _ _ _ _ hl q hq
+
+theorem gate_zipOpen (f : Bytes) (l : List Nat) (h : zipOpen f = some l) : ∀ q ∈ l, ZipRecSane f q := by
+  unfold zipOpen at h
+  split at h
+  · simp at h
+  repeat' (split at h)
+  all_goals (first | (simp at h; done) | exact gate_zipCdirLoop _ _ _ _ _ _ _ h)
+
+theorem gate_zipSelect (env : ZipEnv) (f : Bytes) : ∀ (l : List Nat) (p : Nat) (st : ZipStat) (lho : Nat),
+    zipSelect env f l = some (p, st, lho) →
+      p ∈ l ∧ zipStat f p = some (st, lho) ∧ zipIsDir f p = false ∧ zipSupported f p = true ∧ env.excl (zipName f p) = false := by
+  intro l
+  induction l with
+  | nil => intro p st lho h; simp [zipSelect] at h
+  | cons a rest ih =>
+    intro p st lho h
+    unfold zipSelect at h
+    split at h
+    · obtain ⟨h1, h2⟩ := ih _ _ _ h
+      exact ⟨List.mem_cons_of_mem _ h1, h2⟩
+    · rename_i hc
+      split at h
+      · simp at h
+      rename_i st' lho' hst
+      simp only [Option.some.injEq, Prod.mk.injEq] at h
+      obtain ⟨h1, h2, h3⟩ := h
+      subst h1; subst h2; subst h3
+      simp only [Bool.or_eq_true, Bool.not_eq_true', not_or, Bool.not_eq_true, Bool.not_eq_false] at hc
+      exact ⟨List.mem_cons_self, hst, hc.1.1, hc.1.2, hc.2⟩
+
+theorem zipTake64_keep (need : Bool) (cur : Nat) (d : Bytes) (v : Nat) (d' : Bytes)
+    (h : zipTake64 need cur d = some (v, d')) (hn : need = false) : v = cur := by
+  subst hn
+  simp [zipTake64] at h
+  exact h.1.symm
+
+/-- the stat's CRC-32 is the central-directory field; sizes are the 32-bit fields unless those hold
+    the zip64 escape value -/
+theorem zipStat_fields (f : Bytes) (p : Nat) (st : ZipStat) (lho : Nat) (h : zipStat f p = some (st, lho)) :
+    st.crc32 = le32 f (p + 16) ∧ st.method = le16 f (p + 10) ∧ st.bitFlag = le16 f (p + 8) ∧
+    (le32 f (p + 20) ≠ 0xFFFFFFFF → st.compSize = le32 f (p + 20)) ∧
+    (le32 f (p + 24) ≠ 0xFFFFFFFF → st.uncompSize = le32 f (p + 24)) := by
+  unfold zipStat at h
+  simp only [] at h
+  split at h
+  · split at h
+    · simp at h
+    · simp only [Option.some.injEq, Prod.mk.injEq] at h
+      obtain ⟨h1, _⟩ := h
+      subst h1
+      simp
+    · rename_i d hd
+      split at h
+      · simp at h
+      rename_i u d1 hu
+      split at h
+      · simp at h
+      rename_i c d2 hc
+      split at h
+      · simp at h
+      rename_i l d3 hl
+      simp only [Option.some.injEq, Prod.mk.injEq] at h
+      obtain ⟨h1, _⟩ := h
+      subst h1
+      refine ⟨rfl, rfl, rfl, ?_, ?_⟩
+      · intro hne
+        exact zipTake64_keep _ _ _ _ _ hc (by simpa using hne)
+      · intro hne
+        exact zipTake64_keep _ _ _ _ _ hu (by simpa using hne)
+  · simp only [Option.some.injEq, Prod.mk.injEq] at h
+    obtain ⟨h1, _⟩ := h
+    subst h1
+    simp
+
+theorem zipExtract_junk (inflate : Bytes → Nat → Option Bytes) (junk : Bytes) (st : ZipStat) (tail : Option Bytes)
+    (out : Bytes) (h : zipExtract inflate junk st tail = some out) (hc : st.compSize = 0) : out = junk := by
+  unfold zipExtract at h
+  simp [hc] at h
+  exact h.symm
+
+/-- **zip, whole reader.** -/
+theorem gate_zipDepack (env : ZipEnv) (f out : Bytes) (h : zipDepack env f = some out) :
+    ∃ p st lho, zipStat f p = some (st, lho) ∧ ZipRecSane f p ∧ st.crc32 = le32 f (p + 16) ∧
+      zipIsDir f p = false ∧ zipSupported f p = true ∧ env.excl (zipName f p) = false ∧
+      (st.compSize ≠ 0 → st.crc32 = (crc32A out 0).toNat ∧ st.uncompSize = out.length) ∧
+      (st.compSize = 0 → out = env.junk st.uncompSize) ∧
+      (le32 f (p + 20) ≠ 0xFFFFFFFF → st.compSize = le32 f (p + 20)) ∧
+      (le32 f (p + 24) ≠ 0xFFFFFFFF → st.uncompSize = le32 f (p + 24)) := by
+  unfold zipDepack at h
+  split at h
+  · simp at h
+  rename_i offs ho
+  split at h
+  · simp at h
+  rename_i p st lho hsel
+  obtain ⟨hm, hst, hd, hsu, hex⟩ := gate_zipSelect env f offs p st lho hsel
+  obtain ⟨c1, _, _, c4, c5⟩ := zipStat_fields f p st lho hst
+  exact ⟨p, st, lho, hst, gate_zipOpen f offs ho p hm, c1, hd, hsu, hex,
+    fun hc => gate_zip _ _ _ _ _ hc h, fun hc => zipExtract_junk _ _ _ _ _ h hc, c4, c5⟩
+
+theorem u8_of_drop (f : Bytes) (p : Nat) (a : UInt8) (k : Nat) (l : Bytes)
+    (h : f.drop p = l) (hk : l[k]? = some a) : u8 f (p + k) = a.toNat := by
+  unfold u8
+  have : f[p + k]? = some a := by
+    rw [← hk, ← h, List.getElem?_drop]
+  simp [List.getD_eq_getElem?_getD, this]
+
+theorem zipScanUp_sound (f : Bytes) : ∀ (l : Bytes) (p hi : Nat) (best : Option Nat) (r : Nat),
+    f.drop p = l → (∀ b, best = some b → le32 f b = 0x06054b50 ∧ b ≤ hi) →
+    zipScanUp l p hi best = some r → le32 f r = 0x06054b50 ∧ r ≤ hi := by
+  intro l
+  induction l with
+  | nil => intro p hi best r _ hb h; simp [zipScanUp] at h; exact hb r h
+  | cons a t ih =>
+    intro p hi best r hd hb h
+    match t, hd, h with
+    | b :: c :: d :: rest, hd, h =>
+      unfold zipScanUp at h
+      split at h
+      · exact hb r h
+      · rename_i hle
+        refine ih (p + 1) hi _ r ?_ ?_ h
+        · rw [← List.drop_drop, hd]; rfl
+        · intro x hx
+          split at hx
+          · rename_i hm
+            simp only [Option.some.injEq] at hx
+            subst hx
+            simp only [Bool.and_eq_true, beq_iff_eq] at hm
+            obtain ⟨⟨⟨ha, hb'⟩, hc⟩, hdd⟩ := hm
+            refine ⟨?_, by omega⟩
+            unfold le32
+            have e0 := u8_of_drop f p a 0 _ hd (by simp)
+            have e1 := u8_of_drop f p b 1 _ hd (by simp)
+            have e2 := u8_of_drop f p c 2 _ hd (by simp)
+            have e3 := u8_of_drop f p d 3 _ hd (by simp)
+            simp only [Nat.add_zero] at e0
+            rw [e0, e1, e2, e3, ha, hb', hc, hdd]
+            decide
+          · exact hb x hx
+    | [], _, h => simp [zipScanUp] at h; exact hb r h
+    | [_], _, h => simp [zipScanUp] at h; exact hb r h
+    | [_, _], _, h => simp [zipScanUp] at h; exact hb r h
+
+/-- the End Of Central Directory record found by the scan: signature present, 22 bytes fit -/
+theorem zipFindEocd_sound (f : Bytes) (e : Nat) (h : zipFindEocd f = some e) :
+    le32 f e = 0x06054b50 ∧ e + 22 ≤ f.length := by
+  unfold zipFindEocd at h
+  split at h
+  · simp at h
+  rename_i hl
+  have := zipScanUp_sound f _ _ _ none e rfl (by simp) h
+  exact ⟨this.1, by omega⟩
+
+theorem zipOpen_eocd (f : Bytes) (l : List Nat) (h : zipOpen f = some l) : ∃ e, zipFindEocd f = some e := by
+  unfold zipOpen at h
+  split at h
+  · simp at h
+  rename_i E hE
+  unfold zipEocd at hE
+  split at hE
+  · simp at hE
+  · rename_i e he; exact ⟨e, he⟩
+
+theorem zipDepack_open (env : ZipEnv) (f out : Bytes) (h : zipDepack env f = some out) : ∃ l, zipOpen f = some l := by
+  unfold zipDepack at h
+  split at h
+  · simp at h
+  · rename_i l hl; exact ⟨l, hl⟩
+
+/-- the Records of the Index as a list `(Unpadded Size, Uncompressed Size)` -/
+def xzRecs (f : Bytes) : Nat → Nat → Option (List (Nat × Nat))
+  | 0, _ => some []
+  | n + 1, p =>
+    match xzVli f p f.length with
+    | none => none
+    | some (unp, q) =>
+      match xzVli f q f.length with
+      | none => none
+      | some (unc, r) =>
+        match xzRecs f n r with
+        | none => none
+        | some l => some ((unp, unc) :: l)
+
+theorem xzIndexRecords_sums (f : Bytes) : ∀ n p h r h', xzIndexRecords f n p h = some (r, h') →
+    ∃ recs, xzRecs f n p = some recs ∧ recs.length = n ∧
+      h'.unpadded % 2 ^ 64 = (h.unpadded + (recs.map (·.1)).sum) % 2 ^ 64 ∧
+      h'.uncompressed % 2 ^ 64 = (h.uncompressed + (recs.map (·.2)).sum) % 2 ^ 64 := by
+  intro n
+  induction n with
+  | zero =>
+    intro p h r h' hh
+    simp only [xzIndexRecords, Option.some.injEq, Prod.mk.injEq] at hh
+    obtain ⟨_, rfl⟩ := hh
+    exact ⟨[], rfl, rfl, by simp, by simp⟩
+  | succ n ih =>
+    intro p h r h' hh
+    unfold xzIndexRecords at hh
+    split at hh
+    · simp at hh
+    rename_i unp q h1
+    split at hh
+    · simp at hh
+    rename_i unc r' h2
+    obtain ⟨recs, e1, e2, e3, e4⟩ := ih _ _ _ _ hh
+    refine ⟨(unp, unc) :: recs, ?_, by simp [e2], ?_, ?_⟩
+    · unfold xzRecs; simp [h1, h2, e1]
+    · rw [e3]; simp only [xzHashUpd, List.map_cons, List.sum_cons]; omega
+    · rw [e4]; simp only [xzHashUpd, List.map_cons, List.sum_cons]; omega
+
+theorem xzBlocksHash_sums (ct : Nat) (bs : List XzBlk) (h : XzHash) :
+    let r := bs.foldl (fun h b => xzHashUpd h (b.hdr.size + b.consumed + xzCheckSize ct) (b.chunks.map List.length).sum) h
+    r.unpadded % 2 ^ 64 = (h.unpadded + (bs.map (fun b => b.hdr.size + b.consumed + xzCheckSize ct)).sum) % 2 ^ 64 ∧
+    r.uncompressed % 2 ^ 64 = (h.uncompressed + (bs.map (fun b => b.chunks.flatten.length)).sum) % 2 ^ 64 := by
+  induction bs generalizing h with
+  | nil => simp
+  | cons b rest ih =>
+    simp only [List.foldl_cons, List.map_cons, List.sum_cons]
+    obtain ⟨a1, a2⟩ := ih (xzHashUpd h (b.hdr.size + b.consumed + xzCheckSize ct) (b.chunks.map List.length).sum)
+    refine ⟨?_, ?_⟩
+    · rw [a1]; simp only [xzHashUpd]; omega
+    · rw [a2]; simp only [xzHashUpd, sum_length_eq_flatten]; omega
+
+theorem output_length (P : XzParse) : P.output.length = (P.blocks.map (fun b => b.chunks.flatten.length)).sum := by
+  unfold XzParse.output
+  simp [List.length_flatten, List.map_map, Function.comp_def]
 
 end Xmp.Gates
